@@ -290,6 +290,8 @@ func corrGoJSON(ctx *Ctx, n int) error {
 			Out     json.RawMessage `json:"out"`
 			Valid   bool            `json:"valid"`
 			InFrag  bool            `json:"infragment"`
+			Stable  bool            `json:"stable"`
+			Typed   bool            `json:"typed"`
 		}
 		if err := ctx.Model(J{"fn": "gojson", "type": t, "value": v}, &mres); err != nil {
 			return err
@@ -321,6 +323,19 @@ func corrGoJSON(ctx *Ctx, n int) error {
 		if mres.Valid && !jsonEqualExact(implOut, text.String()) {
 			// the theorem's statement, on the implementation
 			ctx.Res.Disagree("CORR a value the model calls valid does not round-trip through encoding/json", cs, text.String(), implOut)
+		}
+		// the other direction (Proofs/GoJsonEnc.lean, enc_dec): the decoded Go value, marshalled and unmarshalled again, is
+		// the same value exactly when the model calls it stable (no pointer to nil, no empty non-nil slice or map under omitempty)
+		if mres.Typed {
+			again := reflect.New(t.reflectType())
+			same := json.Unmarshal([]byte(implOut), again.Interface()) == nil && reflect.DeepEqual(dst.Elem().Interface(), again.Elem().Interface())
+			ctx.Res.Count(fmt.Sprintf("corr:gojson:marshal-unmarshal:stable=%v", mres.Stable))
+			if mres.Stable && !same {
+				ctx.Res.Disagree("CORR a value the model calls stable does not survive json.Marshal / json.Unmarshal", cs, "the same value", "another value (via "+implOut+")")
+			}
+			if !mres.Stable && same {
+				ctx.Res.Count("corr:gojson:marshal-unmarshal:unstable-but-same")
+			}
 		}
 		if mres.Valid && strings.TrimSpace(implOut) != strings.TrimSpace(text.String()) {
 			ctx.Res.Count("corr:gojson:valid-but-different-text") // member order or escaping; compared semantically above
